@@ -90,6 +90,20 @@ func newOPLConfigWatcher(ctx context.Context, c *Config, target string) (*oplCon
 	}
 }
 
+// ShouldReload reports whether the configured OPL location changed. The
+// embedded memory manager compares its namespaces with the config value, which
+// for an OPL config is the {location: ...} map and never equal: every change of
+// the main config file then rebuilt the watcher from whatever is on disk and
+// lost the last valid namespaces if the OPL file was unparsable at that moment.
+func (nw *oplConfigWatcher) ShouldReload(newValue any) bool {
+	v, ok := newValue.(map[string]any)
+	if !ok {
+		return true
+	}
+	location, ok := v["location"].(string)
+	return !ok || location != nw.target
+}
+
 func (nw *oplConfigWatcher) handleChange(e *watcherx.ChangeEvent) {
 	// the lock is acquired before parsing to ensure that the getters are
 	// waiting for the updated values
